@@ -42,7 +42,10 @@ public:
    *    x = y + k <--> y = x - k
    *    x = y - k <--> y = x + k
    *    x = y * k <--> y = x / k  if (k != 0)
-   *    x = y / k <--> y = x * k  if (k != 0)
+   *    x = y / k <--> y = x * k  if (k == 1 or k == -1)
+   *
+   *  Truncated division by any other constant is not invertible:
+   *    x = y / k <--> y = x * k + r  where |r| < |k|
    *
    *  Fallback case:
    *   forget(x)
@@ -117,10 +120,26 @@ public:
         if (!(x == y)) {
           dom -= x;
         }
+        if (k != 1 && k != -1) {
+          // The division rounds towards zero so it is not invertible:
+          // x = y / k iff y = x * k + r for some r such that |r| < |k|
+          // (and r has the sign of y).
+          auto &vfac = const_cast<varname_t *>(&(x.name()))->get_var_factory();
+          variable_t r(vfac.get(), y.get_type());
+          number_t max_r = (k < 0 ? -k : k) - 1;
+          linear_expression_t r_e(r);
+          // -max_r <= r <= max_r
+          dom += linear_constraint_t(r_e - max_r,
+                                     linear_constraint_t::INEQUALITY);
+          dom += linear_constraint_t(-r_e - max_r,
+                                     linear_constraint_t::INEQUALITY);
+          dom.apply(OP_ADDITION, y, y, r);
+          dom -= r;
+        }
       } else {
         dom -= x;
       }
-      break;    
+      break;
     default:
       //case OP_UDIV:
       //case OP_SREM:
